@@ -28,7 +28,9 @@ Primitive writes and how they are intercepted
                 metatmp->meta = TM, open 'wb' of metatmp / jtmp = TC+TW / JC+JW).  Kill plans stop before / after
                 FS:* primitives like any other; `apply_prims` replays them on a directory image (remove = file
                 absent, rename = target := source, source absent, copy, create = empty, write = content).
-                Creating a fresh journal is FS:create:journal, FS:write:journal:40, R1024.
+                Creating a fresh journal is ("FS","create","journal"), ("FS","write","journal",hdr), R1024; these
+                two print as `FC`, `FW40:<adler>` (the model's names; creation is a modelled, crash-examined
+                operation: kill_creation / judge_creation_image / replay_create, D74).
   fs call events = all primitives except R / S / JZ / JS; `Real.apply(op, fs_hook=...)` is called right before and
                 right after each (fs_images: copy of the directory), `fs_kill=(n, "before"|"after")` kills there.
 `mmap.flush()` (msync) is NOT forwarded to the real mapping (irrelevant for a killed process, no primitive
@@ -524,6 +526,10 @@ def prim_str(p, jm):
         return "TW" + meta_value_str(jm, p[1])
     if p[0] == "JW":
         return "JW%d:%d" % (len(p[1]), adler(p[1]))
+    if p[0] == "FS" and p[1:3] == ("create", "journal"):
+        return "FC"
+    if p[0] == "FS" and p[1:3] == ("write", "journal"):
+        return "FW%d:%d" % (len(p[3]), adler(p[3]))
     if p[0] == "FS":
         if p[1] in ("rename", "copy"):
             return "FS:%s:%s->%s" % (p[1], p[2], p[3])
@@ -551,13 +557,20 @@ def meta_value_str(jm, data):
 # the real journal under the recorder
 # ---------------------------------------------------------------------------------------------------
 class Real(object):
-    def __init__(self, jm, path, factory="FileJournal", kill=None):
+    def __init__(self, jm, path, factory="FileJournal", kill=None, fs_kill=None, fs_hook=None):
         self.jm, self.path, self.factory = jm, path, factory
         self.rec = Recorder(base=path)
-        self.rec.begin(kill)
-        with patched(jm, self.rec):
-            self.j = jm.createJournal(path) if factory == "createJournal" else jm.FileJournal(path)
-        self.open_prims = list(self.rec.log)
+        self.rec.begin(kill, fs_kill, fs_hook)
+        self.j = None
+        try:
+            with patched(jm, self.rec):
+                self.j = jm.createJournal(path) if factory == "createJournal" else jm.FileJournal(path)
+        except BaseException:
+            # the constructor failed or was killed: release what it had opened (file content unaffected)
+            self.abandon()
+            raise
+        finally:
+            self.open_prims = list(self.rec.log)
 
     def apply(self, op, kill=None, fs_kill=None, fs_hook=None):
         """run one op (not reopen) on the real object; returns the recorded primitives.
@@ -1244,6 +1257,127 @@ def replay_fs(jm, tmp, rp):
 
 
 # ---------------------------------------------------------------------------------------------------
+# creation of the journal file as an examined operation (D74: a kill between open 'wb' and the header
+# write leaves a zero-length file)
+# ---------------------------------------------------------------------------------------------------
+CREATE_EMPTY_SIG = "journal.create:empty-file-does-not-reopen"
+CREATE_TORN_SIG = "journal.create:torn-header-does-not-reopen"
+CREATE_T = (1, 17, 36, 37, 39)
+
+
+def make_meta(jm, tmp, ci=5, tv=(2, "n1:1")):
+    """bytes of a `.meta` as the real class stores it (commit index, and term + vote where supported)"""
+    path = os.path.join(tmp, "mk-meta")
+    remove_files(path)
+    r = Real(jm, path)
+    try:
+        r.apply(["setci", ci])
+        if r.has_tv():
+            r.apply(["settv", tv[0], tv[1]])
+        else:
+            r.apply(["timer"])
+            tv = (0, None)
+        data = _read(path + ".meta")
+    finally:
+        r.abandon()
+        remove_files(path)
+    return data, ci, tv
+
+
+def kill_creation(jm, path, snap, kill=None, fs_kill=None):
+    """(B) the constructor really killed: files of `snap` at `path` (journal missing or zero-length),
+    FileJournal(path) with a kill plan.  Returns (directory image, killed?, primitives done, exception)."""
+    write_snapshot(path, snap)
+    killed, exc, r = False, None, None
+    rec_log = []
+    try:
+        r = Real(jm, path, kill=kill, fs_kill=fs_kill)
+        rec_log = r.open_prims
+    except Killed:
+        killed = True
+    except Exception as e:                               # noqa
+        exc = e
+    img = snapshot(path)
+    if r is not None:
+        r.abandon()
+    remove_files(path)
+    return img, killed, rec_log, exc
+
+
+def judge_creation_image(jm, scratch, img, ci, tv):
+    """A directory image left by a kill inside the creation of the journal: the next FileJournal(path)
+    must open (an empty journal), still read the stored commit index / term / vote, and be usable
+    (an appended entry survives a reopen).  Returns (None | (signature, what), dict of observations)."""
+    size = None if img[0] is None else len(img[0])
+    o = open_image(jm, scratch, img)
+    obs = {"image_size": size}
+    try:
+        if "err" in o:
+            obs["reopen"] = o["err"]
+            if size == 0:
+                return (CREATE_EMPTY_SIG, "a zero-length journal file (kill between open(path,'wb') and the header write) makes "
+                                          "every later FileJournal(path) raise %s" % o["err"]), obs
+            if size is None:
+                return ("journal.create:missing-file-does-not-open", "FileJournal(path) raises %s" % o["err"]), obs
+            return (CREATE_TORN_SIG, "a %d-byte journal file (torn header write) makes FileJournal(path) raise %s" % (size, o["err"])), obs
+        r = o["real"]
+        after = _read(r.path) or b""
+        obs.update(len=o["len"], cur=o["cur"], ci=o["ci"], tv=o["tv"], prims=prims_str(o["prims"], jm), disk=o["disk"],
+                   fsize=len(after), fsum=adler(after), summary=r.summary(o["prims"]))
+        if o["len"] != 0 or o["cur"] != FIRST:
+            return ("journal.create:reopened-journal-not-empty", "holds %s, offset %d" % (short_ents(o["ents"]), o["cur"])), obs
+        if o["ci"] != ci:
+            return ("journal.meta:commit-index-never-set", "commit index %r after reopen, .meta held %r" % (o["ci"], ci)), obs
+        if o["tv"] != tuple(tv):
+            return ("journal.setTermAndVote:lost-or-invented-after-kill", "(term, vote) %r after reopen, .meta held %r" % (o["tv"], tv)), obs
+        e = (b"first-entry", 7, 3)
+        try:
+            r.j.add(*e)
+            r = o["real"] = reopen(r, "abandon")
+            got = r.entries()
+        except Exception as x:                           # noqa
+            return ("journal.create:reopened-journal-not-usable", "add + reopen raises %r" % (x,)), obs
+        if got != [e]:
+            return ("journal.create:reopened-journal-not-usable", "after add + reopen the journal holds %s" % short_ents(got)), obs
+        return None, obs
+    finally:
+        if "real" in o:
+            o["real"].abandon()
+        remove_files(scratch)
+
+
+def creation_points(prims):
+    """(k, t) kill points of the creation primitives: every k, and inside the header write the given t"""
+    pts = []
+    for k in range(len(prims) + 1):
+        L = prim_len(prims[k]) if k < len(prims) else 0
+        for t in ([0] + [x for x in CREATE_T if x < L]) if L else [0]:
+            pts.append((k, t))
+    return pts
+
+
+def replay_create(jm, tmp, rp):
+    """re-run one creation crash point with a REAL kill"""
+    meta, ci, tv = (None, 1, (0, None))
+    if rp.get("meta"):
+        meta, ci, tv = make_meta(jm, tmp)
+    start = {"missing": None, "zero": b""}.get(rp.get("start", "missing"))
+    snap = (start, meta, None, None)
+    if rp.get("when"):
+        img, killed, done, exc = kill_creation(jm, os.path.join(tmp, "cj"), snap, fs_kill=(rp.get("fs_index", 0), rp["when"]))
+    elif "k" in rp:
+        img, killed, done, exc = kill_creation(jm, os.path.join(tmp, "cj"), snap, kill=(rp["k"], rp.get("t", 0)))
+    else:                                                # no kill: the files as given (e.g. a zero-length journal)
+        img, killed, exc = snap, False, None
+    if exc is not None:
+        size = None if snap[0] is None else len(snap[0])
+        return ((CREATE_EMPTY_SIG if size == 0 else "journal.create:exception:" + type(exc).__name__),
+                "FileJournal(path) raises %r" % (exc,)), killed
+    m, obs = judge_creation_image(jm, os.path.join(tmp, "cimg"), img, ci, tv)
+    return m, killed
+
+
+# ---------------------------------------------------------------------------------------------------
 # one op sequence on the real code (+ model when given): the `journal_bytes` case runner
 # ---------------------------------------------------------------------------------------------------
 class Cov(dict):
@@ -1482,13 +1616,9 @@ def run_case(jm, model, path, source, factory="FileJournal", cov=None, rng=None,
             violate("open", "exception:" + type(e).__name__, "creating a fresh journal raised %r" % (e,))
             return res
         if model is not None:
+            # creation is a modelled operation: FC (open 'wb'), FW40 (header written), R1024
             reply = model.new()
-            # creation itself (write the 40-byte header file, resize to 1024) is not a modelled
-            # operation: the model starts from the finished 1024-byte file and lists no primitives
-            if not is_creation(real.open_prims):
-                disagree("primitives of creating a fresh journal", "FS:create:journal,FS:write:journal:40:..,R%d "
-                         "(expected by the harness)" % INITIAL_SIZE, prims_str(real.open_prims, jm))
-            compare(reply + " P -", [], True, True)
+            compare(reply, real.open_prims, True, True)
         monitor("open")
         while res["disagreement"] is None and res["violation"] is None:
             op = source.next(real.view())
